@@ -52,6 +52,10 @@ CHECKS["C04"] = ("exploration", "metamorphic cross-instance monitor (create / ke
   "wallet id and the address at every issued index must equal an independent derivation from (mnemonic, passphrase) and must be identical in every instance reached by export/import/restore/restart; every listed address must be the witness script hash of its public key and SignHash must produce a signature valid under that key",
   "trusts harness BIP-39/BIP-32 references (C13/C14 checks), btcec verification; wallets in the C14 known-finding class are checked for cross-instance equality only", "§5 C04")
 
+CHECKS["C05"] = ("exploration", "needle-scan monitor over the raw wallet database (all keys/values and raw file bytes after close), exported keystores and error strings + refused-attempt monitor (passphrase error, zero commits, right passphrase still works)",
+  "after seeded operation sequences on 1-3 wallets the persisted bytes and every output are searched for each wallet's secrets in four encodings; every wrong-passphrase attempt from a hostile candidate family on export / mnemonic / remove / sign must be refused without a database commit, across restarts and a wrong public passphrase",
+  "memory zeroing is not observable and not checked; secrets are derived with harness references and the repo's hdkeychain", "§5 C05")
+
 NOT_APPLICABLE = {}
 
 def main():
